@@ -29,7 +29,7 @@ import (
 	"go/token"
 )
 
-func init() { extraSections = append(extraSections, factsWrap) }
+func init() { extraSections = append(extraSections, section{"wrap", factsWrap}) }
 
 // sliceOf: e is `base`, `base[:]`, `base[0:]` (whole = true) or `base[0:hi]` / `base[:hi]` (whole = false,
 // hi returned as a string); ok = false when e is none of these
